@@ -1,17 +1,17 @@
-\* leg A: 3 consecutive exchanges (TC or not), cancellation, late in-order answers, stale UDP duplicates: every caller gets what its own reply demands
+\* leg A: 3 overlapping truncated exchanges, the server closes idle pooled connections at any time, bounded retry (2 attempts)
 SPECIFICATION Spec
 CONSTANTS
   N = 3
   MaxConn = 3
-  MaxResend = 1
+  MaxResend = 0
   MaxTries = 2
   MaxDup = 2
-  TcChoices = {TRUE, FALSE}
-  Overlap = FALSE
+  TcChoices = {TRUE}
+  Overlap = TRUE
   Burst = 0
-  EnvCancel = TRUE
-  EnvClose = FALSE
-  EnvDup = TRUE
+  EnvCancel = FALSE
+  EnvClose = TRUE
+  EnvDup = FALSE
   Matching = FALSE
   ReuseBusy = FALSE
   IdleOnCancel = FALSE
